@@ -17,15 +17,16 @@ var reDays = regexp.MustCompile("^(-?[0-9]+)d")
 type Duration time.Duration
 
 func (d Duration) marshalInternal() string {
-	negative := false
-	if d < 0 {
-		negative = true
-		d = -d
+	// split the unsigned magnitude: -d overflows for the most negative duration
+	negative := d < 0
+	mag := uint64(d)
+	if negative {
+		mag = -mag
 	}
 
-	day := Duration(86400 * time.Second)
-	days := d / day
-	nonDays := d % day
+	day := uint64(86400 * time.Second)
+	days := mag / day
+	nonDays := mag % day
 
 	ret := ""
 	if negative {
@@ -33,7 +34,7 @@ func (d Duration) marshalInternal() string {
 	}
 
 	if days > 0 {
-		ret += strconv.FormatInt(int64(days), 10) + "d"
+		ret += strconv.FormatUint(days, 10) + "d"
 	}
 
 	if nonDays != 0 {
